@@ -139,6 +139,29 @@ def run(chk):
                     else:
                         r5.ok("PooledClient.%s: client used only as call receiver inside the bracket" % m.name, sample=(n_br < 3))
     r5.floor("get_and_release brackets in PooledClient", n_br, 24)
+    # the bracket itself must be private to the calling thread: a generator-based context manager (fresh frame per call)
+    # or a freshly constructed object; one context-manager object shared by all callers would hold "the" checked-out
+    # object in shared state
+    gar = prog.method(pool, "get_and_release")
+    if any("contextmanager" in d for d in gar.decorators):
+        r5.ok("get_and_release is a generator context manager: the checked-out object lives in a per-call frame")
+    else:
+        rets = [r for r in walk_no_nested(gar.node) if isinstance(r, ast.Return) and r.value is not None]
+        if not rets:
+            r5.fail("ObjectPool.get_and_release:no-context", "get_and_release returns nothing usable as a context manager", fn=gar, node=gar.node)
+        for r in rets:
+            v = r.value
+            root = v
+            while isinstance(root, (ast.Attribute, ast.Subscript)):
+                root = root.value
+            shared = isinstance(v, (ast.Attribute, ast.Subscript)) and isinstance(root, ast.Name) and root.id == "self"
+            fresh = isinstance(v, ast.Call) and isinstance(v.func, ast.Name) and v.func.id in pool.module.classes
+            if shared:
+                r5.fail("ObjectPool.get_and_release:shared-context-object", "get_and_release returns `%s`, an object kept on the pool and therefore handed to every caller: two threads inside the bracket at the same time share its state (which connection is checked out), so one thread releases or destroys the other's in-flight connection" % node_src(v), fn=gar, node=r)
+            elif fresh:
+                r5.ok("get_and_release returns a freshly constructed %s per call" % v.func.id)
+            else:
+                raise AnalysisError("C08.R5: cannot tell whether the object returned by get_and_release (`%s`) is private to the caller" % node_src(v))
     # pooled clients are obtained nowhere else in the package
     for f in prog.all_functions():
         if f.cls is not None and f.cls.name in ("ObjectPool",):
